@@ -1,6 +1,7 @@
 package gomavlib
 
 import (
+	"errors"
 	"io"
 
 	"github.com/bluenviron/gomavlib/v3/pkg/dialect"
@@ -85,4 +86,75 @@ func verifHarness_C12_close2(scenario int) {
 	werr := n.WriteMessageAll(msg)
 	verifAssert(werr == nil, "C12/write-after-close-returns")
 	verifReach("C12/close2")
+}
+
+var verifErrSetup = errors.New("verif: endpoint set-up failed")
+
+type verifFailConf struct{}
+
+func (verifFailConf) init(*Node) (Endpoint, error) { return nil, verifErrSetup }
+
+// C12, failed initialization (one schedule): the first endpoint is usable (custom transport: it would yield a channel
+// at once), the second one cannot be set up. Initialize reports the error, and nothing is left behind: no goroutine,
+// and the endpoint that was already set up has been closed (the custom transport exactly once).
+func verifHarness_C12_init_failure(order int) {
+	t := &verifBlockRWC{}
+	eps := []EndpointConf{EndpointCustom{t}, verifFailConf{}}
+	if order == 1 {
+		eps = []EndpointConf{verifFailConf{}, EndpointCustom{t}}
+	}
+	n := &Node{Dialect: verifHarnessDialect, OutVersion: V2, OutSystemID: 1, HeartbeatDisable: true, Endpoints: eps}
+	var ierr error
+	stillBlocked := verifRunGoroutines(func() { ierr = n.Initialize() })
+	verifAssert(ierr != nil, "C12/init-failure/reported")
+	verifAssert(!stillBlocked && verifBlockedGoroutines() == 0, "C12/init-failure/no-goroutine-left-behind")
+	if order == 0 {
+		verifAssert(t.closed == 1, "C12/init-failure/endpoint-already-set-up-is-closed-once")
+	} else {
+		verifAssert(t.closed == 0, "C12/init-failure/untouched-endpoint-untouched")
+	}
+	verifReach("C12/init-failure")
+}
+
+// C12, serial endpoint in reconnect back-off (one schedule): the device is opened, then lost (read error: the channel
+// closes), every reopen fails and the reconnect timer has not elapsed; Close returns, every goroutine has ended and
+// the event channel is closed.
+func verifHarness_C12_close_backoff() {
+	old := serialOpenFunc
+	defer func() { serialOpenFunc = old }()
+	t := &verifBlockRWC{}
+	opens := 0
+	serialOpenFunc = func(device string, baud int) (io.ReadWriteCloser, error) {
+		opens++
+		switch opens {
+		case 1:
+			return &verifBlockRWC{}, nil // existence check of initialize()
+		case 2:
+			return t, nil
+		}
+		verifTimersPending(true) // the reconnect delay before this attempt has elapsed, the next one has not
+		return nil, verifErrSetup
+	}
+	n := &Node{Dialect: verifHarnessDialect, OutVersion: V2, OutSystemID: 1, HeartbeatDisable: true,
+		Endpoints: []EndpointConf{EndpointSerial{Device: "x", Baud: 57600}}}
+	var ierr error
+	verifRunGoroutines(func() { ierr = n.Initialize() })
+	verifAssert(ierr == nil, "C12/initialize-ok")
+	evt := <-n.chEvent
+	_, isOpen := evt.(*EventChannelOpen)
+	verifAssert(isOpen, "C12/open-event-first")
+	t.wake = true // the device is unplugged: Read fails
+	verifRunGoroutines(nil)
+	evt = <-n.chEvent
+	_, isClose := evt.(*EventChannelClose)
+	verifAssert(isClose, "C12/backoff/channel-closed-after-the-read-error")
+	verifRunGoroutines(nil)
+	verifAssert(opens == 3, "C12/backoff/provider-tried-to-reopen-once")
+	stillBlocked := verifRunGoroutines(func() { n.Close() })
+	verifAssert(!stillBlocked, "C12/close-returns-and-every-goroutine-has-ended")
+	verifAssert(verifBlockedGoroutines() == 0, "C12/no-goroutine-left-behind")
+	verifAssert(t.closed == 1, "C12/transport-or-connection-closed-exactly-once")
+	_, ok := <-n.chEvent
+	verifAssert(!ok, "C12/event-channel-closed")
+	verifReach("C12/backoff")
 }
